@@ -14,6 +14,7 @@ mod vbus;
 mod eng_c11;
 mod eng_c12;
 mod eng_c15;
+mod eng_c18;
 mod eng_codec;
 mod eng_diag;
 mod eng_dp;
@@ -164,6 +165,7 @@ fn main() {
         "C10" => eng_codec::c10(&mut ctx),
         "C15" => eng_c15::c15(&mut ctx),
         "C16" => eng_rx::c16(&mut ctx),
+        "C18" => eng_c18::c18(&mut ctx),
         "C19" => eng_gsd::c19(&mut ctx),
         "C20" => eng_prm::c20(&mut ctx),
         _ => {
